@@ -181,7 +181,31 @@ def h_store(X, ins):
         X.store_obj(sname, ref, v)
         return
     nil_check_lv(X, lv, ins['pos'])
+    ownership_check(X, lv, ins)
     store_lvalue(X.V, X.heap, lv, v)
+
+
+def ownership_check(X, lv, ins):
+    """worker closures (flag worker): a store must not hit a variable captured from the enclosing function,
+    unless it happens while a mutex is held or the variable is declared `guarded` (atomic / single writer)"""
+    c = X.V.contracts['funcs'].get(X.V.fnkey)
+    if c is None or 'worker' not in c['flags']:
+        return
+    if lv.kind != 'cell':
+        return
+    ty, ref = lv.data
+    if X.is_local_cell(ref):
+        return
+    top = X.w.prog.funcs[X.V.fnkey]
+    held = X.heap.get(('ghost', 'lock_Lock', I)) - X.heap.get(('ghost', 'lock_Unlock', I)) > X.V.entry_lock_depth
+    guarded = set(c.get('guarded', []))
+    for fv in top['freevars']:
+        uk, e = X.w.prog.under(fv['type'])
+        if e['kind'] != 'ptr' or e['elem'] != ty or fv['name'] in guarded:
+            continue
+        p = z3.Const('p_' + fv['name'], I)
+        X.oblige('ownership', z3.Or(held, ref != p), ins.get('pos', ''), label='captured.' + fv['name'],
+                 text='worker writes the captured variable %s of the enclosing function without holding a lock' % fv['name'])
 
 
 def h_fieldaddr(X, ins):
